@@ -9,6 +9,9 @@ import EaselModel.Sqio.EmblTotalAll
 import EaselModel.Sqio.MsaSeqMode
 import EaselModel.Sqio.MsaSeqWindow
 import EaselModel.Sqio.MsaSeqBlock
+import EaselModel.Sqio.MsaSeqSto
+import EaselModel.Sqio.MsaSeqPhy
+import EaselModel.Sqio.MsaSeqAll
 /-! # C02 — sequence-file input is total: any bytes give a normal outcome
 
 Property theorems only (proofs are glue on `Sqio/Refine.lean`, `Sqio/NoFault.lean`).
@@ -224,9 +227,8 @@ autodetection) and of the ten alignment readers (imported, not re-modelled). Lem
 Everything below holds for EVERY byte string: the bytes only enter through `Opened.read`, whose outcome is good for every list of lines
 (C01 `opened_read_good`). `Inv` = the alignment held by the handle (if any) is one the reader returned; it holds after open and every
 call keeps it, so the statements hold after every history of calls. `ModeOk o` = the reader delivers alignments in the handle's mode
-(digital iff an alphabet was set, with that alphabet's `Kp`): a theorem for aligned FASTA, A2M, Clustal, Clustal-like, PSI-BLAST, SELEX and
-PHYLIP (default name width) - `msa_mode_ok` -; for Stockholm / Pfam it is a hypothesis tied by the differential run (the model
-answers `fault` on a mismatch, the implementation cannot). -/
+(digital iff an alphabet was set, with that alphabet's `Kp`) is a theorem for every opened file (`msa_mode_ok`), so no statement below
+carries a hypothesis on the reader. -/
 
 open EaselModel.Sqio.MsaSeq EaselModel.Msafile in
 /-- **opening an alignment file as a sequence file is total** (declared alignment format, or autodetection that found no unaligned
@@ -252,18 +254,18 @@ open EaselModel.Sqio.MsaSeq EaselModel.Msafile in
 /-- **`sqascii_Read` (= `sqascii_ReadSequence`) on an alignment file is total, for every byte string and every history**: `eslOK` with
     a well-formed record of the handle's mode (at most `alen` residues of the alignment now held), `eslEOF`, or `eslEFORMAT` with a
     message; never a fault, no exception; the invariant and `0 ≤ idx` are kept. -/
-theorem msa_read_total (h : MsaH) (sq : Sq) (hi : Inv h) (hm : ModeOk h.o) (hidx : 0 ≤ h.idx) (hsq : sq.digital = h.o.abc.isSome) :
+theorem msa_read_total (h : MsaH) (sq : Sq) (hi : Inv h) (hidx : 0 ≤ h.idx) (hsq : sq.digital = h.o.abc.isSome) :
     Inv (MsaSeq.read h sq).1 ∧ (MsaSeq.read h sq).1.o = h.o ∧ (MsaSeq.read h sq).1.exc = h.exc ∧ 0 ≤ (MsaSeq.read h sq).1.idx ∧
     (((MsaSeq.read h sq).2.2 = .ok ∧ (MsaSeq.read h sq).2.1.digital = sq.digital ∧
         ∃ m, (MsaSeq.read h sq).1.msa = some m ∧ RowWF m.kp (MsaSeq.read h sq).2.1 ∧ (MsaSeq.read h sq).2.1.n ≤ m.alen) ∨
      (MsaSeq.read h sq).2.2 = .eof ∨ ((MsaSeq.read h sq).2.2 = .eformat ∧ (MsaSeq.read h sq).1.haveErr = true)) :=
-  MsaSeq.read_total h sq hi hm hidx hsq
+  MsaSeq.read_total h sq hi (modeOk_every h.o) hidx hsq
 
 open EaselModel.Sqio.MsaSeq EaselModel.Msafile in
-theorem msa_readSequence_total (h : MsaH) (sq : Sq) (hi : Inv h) (hm : ModeOk h.o) (hidx : 0 ≤ h.idx) (hsq : sq.digital = h.o.abc.isSome) :
+theorem msa_readSequence_total (h : MsaH) (sq : Sq) (hi : Inv h) (hidx : 0 ≤ h.idx) (hsq : sq.digital = h.o.abc.isSome) :
     (MsaSeq.readSequence h sq).2.2 = .ok ∨ (MsaSeq.readSequence h sq).2.2 = .eof ∨
     ((MsaSeq.readSequence h sq).2.2 = .eformat ∧ (MsaSeq.readSequence h sq).1.haveErr = true) := by
-  rcases (MsaSeq.read_total h sq hi hm hidx hsq).2.2.2.2 with h1 | h1 | h1
+  rcases (MsaSeq.read_total h sq hi (modeOk_every h.o) hidx hsq).2.2.2.2 with h1 | h1 | h1
   · exact Or.inl h1.1
   · exact Or.inr (Or.inl h1)
   · exact Or.inr (Or.inr h1)
@@ -271,20 +273,51 @@ theorem msa_readSequence_total (h : MsaH) (sq : Sq) (hi : Inv h) (hm : ModeOk h.
 open EaselModel.Sqio.MsaSeq EaselModel.Msafile in
 /-- **`sqascii_ReadInfo` on an alignment file is total**: `eslOK` with a well-formed info record (no residues, `start = end = C = W = 0`,
     `L ≥ 0`, strings inside their allocations), `eslEOF`, or `eslEFORMAT` with a message; never a fault, no exception. -/
-theorem msa_readInfo_total (h : MsaH) (sq : Sq) (hi : Inv h) (hm : ModeOk h.o) (hidx : 0 ≤ h.idx) (hsq : sq.digital = h.o.abc.isSome) :
+theorem msa_readInfo_total (h : MsaH) (sq : Sq) (hi : Inv h) (hidx : 0 ≤ h.idx) (hsq : sq.digital = h.o.abc.isSome) :
     Inv (MsaSeq.readInfo h sq).1 ∧ (MsaSeq.readInfo h sq).1.o = h.o ∧ (MsaSeq.readInfo h sq).1.exc = h.exc ∧ 0 ≤ (MsaSeq.readInfo h sq).1.idx ∧
     (((MsaSeq.readInfo h sq).2.2 = .ok ∧ InfoWF (MsaSeq.readInfo h sq).2.1) ∨
      (MsaSeq.readInfo h sq).2.2 = .eof ∨ ((MsaSeq.readInfo h sq).2.2 = .eformat ∧ (MsaSeq.readInfo h sq).1.haveErr = true)) :=
-  MsaSeq.readInfo_total h sq hi hm hidx hsq
+  MsaSeq.readInfo_total h sq hi (modeOk_every h.o) hidx hsq
 
 open EaselModel.Sqio.MsaSeq EaselModel.Msafile in
-/-- **the mode hypothesis is a theorem for eight of the ten format selections** (every alphabet, every list of lines): all but
-    Stockholm / Pfam (one reader), where it is tied by the differential run -/
-theorem msa_mode_ok (abc : Option AbcType) (nw : Nat) :
-    ModeOk ⟨.afa, abc, nw⟩ ∧ ModeOk ⟨.a2m, abc, nw⟩ ∧ ModeOk ⟨.clustal, abc, nw⟩ ∧ ModeOk ⟨.clustallike, abc, nw⟩ ∧
-    ModeOk ⟨.psiblast, abc, nw⟩ ∧ ModeOk ⟨.selex, abc, nw⟩ ∧ ModeOk ⟨.phylip, abc, 0⟩ ∧ ModeOk ⟨.phylips, abc, 0⟩ :=
-  ⟨modeOk_afa abc nw, modeOk_a2m abc nw, modeOk_clustal abc nw, modeOk_clustallike abc nw, modeOk_psiblast abc nw,
-   modeOk_selex abc nw, modeOk_phylip abc, modeOk_phylips abc⟩
+/-- **every alignment reader delivers alignments in the handle's mode** (digital iff an alphabet was set, with that alphabet's `Kp`) - all
+    ten formats, every alphabet selection, every PHYLIP name width, every list of lines: each reader returns `eslOK` only through its
+    finishing function, which builds the alignment with `digital := cfg.digital, kp := cfg.kp` (Stockholm / Pfam: none of the 33 helper
+    functions of the reader model ever fails with "eslOK", `Sqio/MsaSeqSto.lean`; PHYLIP: only `phyDone`, `Sqio/MsaSeqPhy.lean`; SELEX:
+    `selexStep_notOk`; the others: the C03 read-domain lemmas). This discharges the mode hypothesis of the lemmas in
+    `Sqio/MsaSeqLemmas.lean`: the theorems of this section carry NO hypothesis on the reader or on the bytes. -/
+theorem msa_mode_ok (o : Opened) : ModeOk o := modeOk_every o
+
+open EaselModel.Sqio.MsaSeq EaselModel.Msafile in
+/-- **an alignment file read as sequences, end to end, for EVERY byte string** - the property's statement for this path: whatever the
+    bytes, the file name, the format selection (one of the ten alignment formats or autodetection) and the mode (text, DNA, RNA, amino;
+    `callerSq abc` = the `ESL_SQ` made by `esl_sq_Create*`), `esl_sqfile_Open*` answers `eslOK` or `eslEFORMAT`; after `eslOK`, any number
+    `n` of `esl_sqio_Read` calls (`readN`: the caller's loop with `esl_sq_Reuse`) ends with `eslOK` (all `n` succeeded), `eslEOF`, or
+    `eslEFORMAT` with a message - never a fault, never an exception. No hypothesis beyond `abc ∈ {0,1,2,3}`. -/
+theorem msa_file_read_total (file : Sqio.Bytes) (fname : LBytes) (fsel : FmtSel) (abc n : Nat) (habc : abc ≤ 3) :
+    (((openMsa file fname fsel abc).2 = .ok ∧ (openMsa file fname fsel abc).1.isSome = true) ∨
+     ((openMsa file fname fsel abc).2 = .eformat ∧ (openMsa file fname fsel abc).1 = none)) ∧
+    ∀ h, (openMsa file fname fsel abc).1 = some h →
+      (readN n h (callerSq abc)).1.exc = false ∧
+      ((readN n h (callerSq abc)).2 = .ok ∨ (readN n h (callerSq abc)).2 = .eof ∨
+       ((readN n h (callerSq abc)).2 = .eformat ∧ (readN n h (callerSq abc)).1.haveErr = true)) :=
+  file_read_total file fname fsel abc n habc
+
+open EaselModel.Sqio.MsaSeq EaselModel.Msafile in
+/-- … so for a Stockholm file (the alignment format the property names) the totality of `sqascii_Read` holds without any hypothesis on
+    the reader: from open on, for every byte string, alphabet and history -/
+theorem msa_read_total_stockholm (h : MsaH) (sq : Sq) (hf : h.o.fmt = .stockholm ∨ h.o.fmt = .pfam) (hi : Inv h) (hidx : 0 ≤ h.idx)
+    (hsq : sq.digital = h.o.abc.isSome) :
+    Inv (MsaSeq.read h sq).1 ∧ 0 ≤ (MsaSeq.read h sq).1.idx ∧ (MsaSeq.read h sq).1.exc = h.exc ∧
+    (((MsaSeq.read h sq).2.2 = .ok ∧ ∃ m, (MsaSeq.read h sq).1.msa = some m ∧ RowWF m.kp (MsaSeq.read h sq).2.1) ∨
+     (MsaSeq.read h sq).2.2 = .eof ∨ ((MsaSeq.read h sq).2.2 = .eformat ∧ (MsaSeq.read h sq).1.haveErr = true)) := by
+  have hm : ModeOk h.o := modeOk_all h.o (by intro hp; rcases hf with hf | hf <;> rcases hp with hp | hp <;> rw [hf] at hp <;> cases hp)
+  obtain ⟨r1, _, r3, r4, r5⟩ := MsaSeq.read_total h sq hi (modeOk_every h.o) hidx hsq
+  refine ⟨r1, r4, r3, ?_⟩
+  rcases r5 with ⟨a, _, m, b, c, _⟩ | a | a
+  · exact Or.inl ⟨a, m, b, c⟩
+  · exact Or.inr (Or.inl a)
+  · exact Or.inr (Or.inr a)
 
 open EaselModel.Sqio.MsaSeq in
 /-- **forward windows over an alignment row** (`sqascii_ReadWindow`, alignment branch, `W > 0`): from a fresh `ESL_SQ` or one holding the
@@ -333,7 +366,7 @@ open EaselModel.Sqio.MsaSeq EaselModel.Msafile in
     every series of windows), `eslEOD` with an empty record carrying `L ≥ 0`, `eslEOF`, `eslEFORMAT` with a message, or - reverse strand
     of a text-mode sequence holding a symbol that is not nucleic - `eslEINVAL` with a message. Never a fault (the slice copied from the
     row lies inside it; every digital code is inside the complement table), no exception, handle invariant kept. -/
-theorem msa_readWindow_total (h : MsaH) (sq : Sq) (C W : Int) (hi : Inv h) (hm : ModeOk h.o) (hsq : sq.digital = h.o.abc.isSome)
+theorem msa_readWindow_total (h : MsaH) (sq : Sq) (C W : Int) (hi : Inv h) (hsq : sq.digital = h.o.abc.isSome)
     (hC : 0 ≤ C) (hW0 : W ≠ 0) (hidx : 0 ≤ (adjIdx h sq W).idx)
     (hcomp : W < 0 → sq.digital = true → (sq.abc = 1 ∧ h.o.abc = some .dna) ∨ (sq.abc = 2 ∧ h.o.abc = some .rna))
     (hstate : ∀ t, (nextRow (adjIdx h sq W)).2.1 = some t →
@@ -350,7 +383,7 @@ theorem msa_readWindow_total (h : MsaH) (sq : Sq) (C W : Int) (hi : Inv h) (hm :
      (MsaSeq.readWindow h sq C W).2.2 = .eof ∨
      ((MsaSeq.readWindow h sq C W).2.2 = .eformat ∧ (MsaSeq.readWindow h sq C W).1.haveErr = true) ∨
      (W < 0 ∧ sq.digital = false ∧ (MsaSeq.readWindow h sq C W).2.2 = .einval ∧ (MsaSeq.readWindow h sq C W).1.haveErr = true)) :=
-  MsaSeq.readWindow_total h sq C W hi hm hsq hC hW0 hidx hcomp hstate
+  MsaSeq.readWindow_total h sq C W hi (modeOk_every h.o) hsq hC hW0 hidx hcomp hstate
 
 open EaselModel.Sqio.MsaSeq EaselModel.Msafile in
 /-- non-vacuity of the window hypotheses on the executable model (`# STOCKHOLM 1.0\ns1 ACGU-ACGUAC\n//\n`, RNA): the fresh `ESL_SQ` is a
@@ -371,13 +404,13 @@ open EaselModel.Sqio.MsaSeq EaselModel.Msafile in
     invariant and a block whose slots are `ESL_SQ`s of the handle's mode (`esl_sq_CreateBlock` / `esl_sq_CreateDigitalBlock`): `eslOK`
     with a complete block, `eslEOF` (nothing could be read), or `eslEFORMAT` with a message - never a fault, no exception, in any of the
     `sqascii_Read` calls it makes; slots and handle invariant are kept (so the statement holds for every series of blocks). -/
-theorem msa_readBlock_total (h : MsaH) (b : Block) (maxSeq : Int) (hi : Inv h) (hm : ModeOk h.o) (hidx : 0 ≤ h.idx)
+theorem msa_readBlock_total (h : MsaH) (b : Block) (maxSeq : Int) (hi : Inv h) (hidx : 0 ≤ h.idx)
     (hs : SlotsOk h.o b.list) (hls : b.listSize ≤ b.list.size) :
     Inv (MsaSeq.readBlock h b maxSeq).1 ∧ (MsaSeq.readBlock h b maxSeq).1.o = h.o ∧ (MsaSeq.readBlock h b maxSeq).1.exc = h.exc ∧
     0 ≤ (MsaSeq.readBlock h b maxSeq).1.idx ∧ SlotsOk h.o (MsaSeq.readBlock h b maxSeq).2.1.list ∧
     (((MsaSeq.readBlock h b maxSeq).2.2 = .ok ∧ (MsaSeq.readBlock h b maxSeq).2.1.complete = true) ∨ (MsaSeq.readBlock h b maxSeq).2.2 = .eof ∨
      ((MsaSeq.readBlock h b maxSeq).2.2 = .eformat ∧ (MsaSeq.readBlock h b maxSeq).1.haveErr = true)) :=
-  MsaSeq.readBlock_total h b maxSeq hi hm hidx hs hls
+  MsaSeq.readBlock_total h b maxSeq hi (modeOk_every h.o) hidx hs hls
 
 open EaselModel.Sqio.MsaSeq EaselModel.Msafile in
 /-- **`esl_sqfile_GuessAlphabet` on an alignment file is total** (it hands the file to `esl_msafile_GuessAlphabet`, which looks at the
